@@ -21,6 +21,7 @@ package gorm
 //@   do rbtos = rbtos + 1
 //@   do rbname = arg1
 //@ event callparam fc
+//@   in gorm.(*DB).Transaction
 //@   do fccalls = fccalls + 1
 //@   do fcerrtag = tagof(result)
 //@   do fcerrbox = boxof(result)
@@ -123,6 +124,12 @@ package gorm
 //@   modifies nothing
 //@   loop 1 invariant whereConds == nil || fresh(whereConds)
 //@   ensures fresh-result: fresh(result)
+//@   ensures parent-handle-untouched: objUnchanged(db) [C06,C13,C18,C05]
+//@   ensures parent-statement-untouched: objUnchanged(db.Statement) [C06,C13,C18,C05]
+//@   ensures keeps-skiphooks: result.Statement.SkipHooks == db.Statement.SkipHooks [C13]
+//@   ensures keeps-context: result.Statement.Context == db.Statement.Context [C18]
+//@   ensures keeps-connpool: result.Statement.ConnPool == db.Statement.ConnPool [C05]
+//@   ensures keeps-config: result.Config == db.Config [C19]
 
 //@ func (*DB).Select
 //@   tags C06
@@ -132,18 +139,42 @@ package gorm
 //@   loop 1 invariant selects-own-1: tx.Statement.Selects == nil || fresh(tx.Statement.Selects)
 //@   loop 2 invariant selects-own-2: tx.Statement.Selects == nil || fresh(tx.Statement.Selects)
 //@   ensures fresh-result: fresh(result)
+//@   ensures parent-handle-untouched: objUnchanged(db) [C06,C13,C18,C05]
+//@   ensures parent-statement-untouched: objUnchanged(db.Statement) [C06,C13,C18,C05]
+//@   ensures keeps-skiphooks: result.Statement.SkipHooks == db.Statement.SkipHooks [C13]
+//@   ensures keeps-context: result.Statement.Context == db.Statement.Context [C18]
+//@   ensures keeps-connpool: result.Statement.ConnPool == db.Statement.ConnPool [C05]
+//@   ensures keeps-config: result.Config == db.Config [C19]
 
-//@ func (*DB).Model (*DB).Table (*DB).Distinct (*DB).Omit (*DB).MapColumns (*DB).Where (*DB).Not (*DB).Or (*DB).Joins (*DB).InnerJoins (*DB).Group (*DB).Having (*DB).Order (*DB).Limit (*DB).Offset (*DB).Scopes (*DB).Preload (*DB).Attrs (*DB).Assign (*DB).Unscoped
+//@ func (*DB).Distinct
 //@   tags C06
 //@   requires db.clone > 0
 //@   modifies nothing
 //@   ensures fresh-result: fresh(result)
+
+//@ func (*DB).Model (*DB).Table (*DB).Omit (*DB).MapColumns (*DB).Where (*DB).Not (*DB).Or (*DB).Joins (*DB).InnerJoins (*DB).Group (*DB).Having (*DB).Order (*DB).Limit (*DB).Offset (*DB).Scopes (*DB).Preload (*DB).Attrs (*DB).Assign (*DB).Unscoped
+//@   tags C06
+//@   requires db.clone > 0
+//@   modifies nothing
+//@   ensures fresh-result: fresh(result)
+//@   ensures parent-handle-untouched: objUnchanged(db) [C06,C13,C18,C05]
+//@   ensures parent-statement-untouched: objUnchanged(db.Statement) [C06,C13,C18,C05]
+//@   ensures keeps-skiphooks: result.Statement.SkipHooks == db.Statement.SkipHooks [C13]
+//@   ensures keeps-context: result.Statement.Context == db.Statement.Context [C18]
+//@   ensures keeps-connpool: result.Statement.ConnPool == db.Statement.ConnPool [C05]
+//@   ensures keeps-config: result.Config == db.Config [C19]
 
 //@ func joins
 //@   tags C06
 //@   requires db.clone > 0
 //@   modifies nothing
 //@   ensures fresh-result: fresh(result)
+//@   ensures parent-handle-untouched: objUnchanged(db) [C06,C13,C18,C05]
+//@   ensures parent-statement-untouched: objUnchanged(db.Statement) [C06,C13,C18,C05]
+//@   ensures keeps-skiphooks: result.Statement.SkipHooks == db.Statement.SkipHooks [C13]
+//@   ensures keeps-context: result.Statement.Context == db.Statement.Context [C18]
+//@   ensures keeps-connpool: result.Statement.ConnPool == db.Statement.ConnPool [C05]
+//@   ensures keeps-config: result.Config == db.Config [C19]
 
 //@ # ---------- package-level error values (assumed never reassigned, non-nil) ----------
 //@ constant ErrRecordNotFound ErrInvalidTransaction ErrMissingWhereClause ErrInvalidDB ErrInvalidValue ErrUnsupportedDriver ErrInvalidData ErrDryRunModeUnsupported ErrEmptySlice
@@ -307,3 +338,10 @@ package gorm
 //@   ensures found-is-match: result >= 0 ==> strs[result] == str
 //@   ensures is-last-match: forall(k, result + 1, len(strs), strs[k] != str)
 //@   ensures minus-one-means-absent: result == -1 ==> forall(k, 0, len(strs), strs[k] != str)
+
+//@ # ---------- C13/C16: Save's upsert fallback runs no hooks a second time ----------
+//@ site save-fallback-skips-hooks
+//@   match call gorm.(*DB).Create
+//@   in gorm.(*DB).Save
+//@   min-sites 1
+//@   assert hooks-skipped: arg0.Statement.SkipHooks [C13]
